@@ -1,6 +1,7 @@
 """approx_common.py — the experiment shared by C05 (basis of the caller's graph, true weight) and C06 ((2k-1) bound,
 exact for k = 1, k = 0 rejected): run the three sequential approximate entry points on generated (graph, k), compare them
-with the extracted ApproxModel and judge every answer.
+with the extracted ApproxModel and judge every answer.  Weight types: double, int and (sequential entry points, parmcb::dijkstra) long long with
+64-bit weights above 2^53; the Python side computes with Python integers only.
 
 Per case the harness (harness/c05.cpp) prints the PUBlic entry point's answer and the answer of the same two statements
 executed on an object it keeps (DIR), together with that object's spanner (retained / dropped input edge ids) and the
@@ -92,6 +93,23 @@ def alg_cases(rng, tier):
             gt = gen.graph_tokens(gen.path_with_chords(n, [2 ** k - 2, 2 ** k - 1]))
             for alg in ALGS: cases.append("X %s D 0 %d %s" % (alg, k, gt))
     return cases
+
+
+def cases64(rng, tier):
+    """the approximate entry points and parmcb::dijkstra instantiated with long long weights above 2^53 (props/c12.py weigh64: sums that are not
+    doubles, distinct weights that collide as doubles, (m+4)*sum(w) < 2^63): X <alg> L 0 <k> <graph> and J L <s> <graph>"""
+    from props import c12
+    import exact_common
+    xs, js = [], []
+    for i in range(110 if tier == "quick" else 1000):
+        rr = rng.random()
+        g0 = spanner_keeps_cycles(rng, 13) if rr < 0.35 else exact_common.dense_small(rng) if rr < 0.55 else gen.structural(rng, 13 if tier == "quick" else 24)
+        g, style = c12.weigh64(rng, g0, rng.choice(["ladder", "ladder", "p54", "p53", "top", "mix"]))
+        gt = gen.graph_tokens(g)
+        k = rng.choice(KS)
+        for alg in ALGS: xs.append("X %s L 0 %d %s" % (alg, k, gt))
+        if g[0] > 0: js.append("J L %d %s" % (rng.randrange(g[0]), gt))
+    return xs, js
 
 
 def small_exhaustive_cases(maxv=5):
@@ -302,6 +320,13 @@ def run(c, tier, what):
     if tier == "thorough":
         lines += small_exhaustive_cases(5)
     jlines = [cs for cs in corpus if cs.startswith("J ")] + (dijkstra_cases(c.rng, tier) if what == "basis" else [])
+    # the 64-bit integer instantiation (own generator stream: the double / int streams, here and in run_tbb, are unchanged)
+    import random
+    x64, j64 = cases64(random.Random(c.seed * 7919 + 564), tier)
+    lines += x64
+    if what == "basis": jlines += j64
+    c.rule += ("; plus the sequential entry points and parmcb::dijkstra instantiated with long long weights above 2^53 (2^54+permutation, 2^54+{0..3}, 2^53+r, 2^b+r up to "
+               "b = 60, heavy/light mixes; (m+4)*sum(w) < 2^63)")
     io = lib.run_lines([exe], lines)
     parsed = [parse_case(l) for l in lines]
     split = [split_io(o) for o in io]
